@@ -775,3 +775,74 @@ Definition final_model (k : kind) (v : Z) (ops : list op) : outcome mem :=
 
 Definition spec_final (k : kind) (v : Z) (ops : list op) : list Z :=
   fold_left (fun xs o => fst (spec_step k xs o)) ops [v].
+
+(* ====================================================================== *)
+(* checkpointed histories (the "large" stream of the harness)              *)
+(* ====================================================================== *)
+
+(* The same steps, but the list is looked at (Each, then First/Last for DList)
+   only where the history says so: after a [QDo] only the call's projected
+   result is recorded, a [QLook] records what [observe] sees.  Lists of a
+   thousand elements are then affordable: the record is linear in the history
+   plus the checkpoints, not quadratic. *)
+Inductive qop :=
+| QDo (o : op)
+| QLook.
+
+Inductive qobs :=
+| QRes (r : ret)                                  (* the result of one call *)
+| QSeen (each : list Z) (fl : option (Z * Z))     (* a checkpoint: Each sequence; First/Last (DList) *)
+| QFault
+| QHang.
+
+Definition qstop {A} (x : outcome A) : list qobs :=
+  match x with Done _ => [] | Fault => [QFault] | Hang => [QHang] end.
+
+Section RunQ.
+  Variable step : mem -> op -> outcome (mem * ret).
+  Variable observe : mem -> outcome (mem * list Z * option (Z * Z)).
+
+  Fixpoint runq_from (m : mem) (ops : list qop) : list qobs :=
+    match ops with
+    | [] => []
+    | QDo o :: ops' =>
+        match step m o with
+        | Done (m1, r) => QRes r :: runq_from m1 ops'
+        | x => qstop x
+        end
+    | QLook :: ops' =>
+        match observe m with
+        | Done (m1, vs, fl) => QSeen vs fl :: runq_from m1 ops'
+        | x => qstop x
+        end
+    end.
+End RunQ.
+
+Definition runq_model (k : kind) (v : Z) (ops : list qop) : list qobs :=
+  match k with
+  | KS => runq_from sl_step sl_observe (sl_init v) ops
+  | KD => runq_from dl_step dl_observe (dl_init v) ops
+  end.
+
+Fixpoint runq_spec_from (k : kind) (xs : list Z) (ops : list qop) : list qobs :=
+  match ops with
+  | [] => []
+  | QDo o :: ops' => let '(xs', r) := spec_step k xs o in QRes r :: runq_spec_from k xs' ops'
+  | QLook :: ops' => QSeen xs (spec_fl k xs) :: runq_spec_from k xs ops'
+  end.
+
+Definition runq_spec (k : kind) (v : Z) (ops : list qop) : list qobs := runq_spec_from k [v] ops.
+
+Definition proj_qobs (o : qobs) : qobs :=
+  match o with
+  | QRes r => QRes (proj_ret r)
+  | _ => o
+  end.
+
+(* the operations of a checkpointed history, the looks dropped *)
+Fixpoint qops_ops (ops : list qop) : list op :=
+  match ops with
+  | [] => []
+  | QDo o :: ops' => o :: qops_ops ops'
+  | QLook :: ops' => qops_ops ops'
+  end.
